@@ -291,6 +291,10 @@ def normalize(vectors, bilinear_form=None):
 
     abs_norms = np.sqrt(np.abs(np.expand_dims(sq_norms, axis=-1)))
 
+    if np.issubdtype(vectors.dtype, np.integer):
+        # integer arrays cannot hold the quotient
+        vectors = vectors.astype('float64')
+
     return np.divide(vectors, abs_norms, out=vectors,
                      where=(abs_norms.astype('float64') != 0))
 
